@@ -280,12 +280,14 @@ def fresh_box(b, st):
         return False
     if ("init", "strong", b) in st.flags and ("init", "weak", b) in st.flags:
         return True
-    # Box::new(RcBox { strong: Cell::new(1), weak: Cell::new(1), .. })
+    # Box::new(RcBox { strong: Cell::new(1), weak: Cell::new(1), .. }); a counter the aggregate starts elsewhere
+    # (new_cyclic builds the box with strong = usize::MAX) counts if it was set to 1 on this path before the handle
     found = []
 
     def pred(x):
         if x[0] == "agg" and x[2] == "cactusref::rc::RcBox":
-            found.append(counters_start_at_one(x))
+            ones = counters_at_one(x)
+            found.append(all(f in ones or ("init", f, b) in st.flags for f in ("strong", "weak")))
             return True
         return False
     mentions(b, pred)
@@ -293,7 +295,11 @@ def fresh_box(b, st):
 
 
 def counters_start_at_one(agg):
-    """Both counters of an RcBox (or of a header struct nested in it) are initialised with Cell::new(1)."""
+    return counters_at_one(agg) == {"strong", "weak"}
+
+
+def counters_at_one(agg):
+    """The counters of an RcBox (or of a header struct nested in it) that are initialised with Cell::new(1)."""
     vals = {}
 
     def walk(a, depth):
@@ -304,11 +310,12 @@ def counters_start_at_one(agg):
                 walk(v, depth + 1)
     walk(agg, 0)
     from interp import classify_init
+    ones = set()
     for fld in ("strong", "weak"):
         v = vals.get(fld)
-        if not (v and classify_init(v) == "one"):     # Cell::new(1), possibly inside a newtype of the crate
-            return False
-    return True
+        if v and classify_init(v) == "one":     # Cell::new(1), possibly inside a newtype of the crate
+            ones.add(fld)
+    return ones
 
 
 def is_sentinel(b):
